@@ -146,3 +146,64 @@ Proof.
   intros Hin (Hp & _ & Hl & _). split; [split; [exact Hin|exact Hp]|]. split; [reflexivity|]. split; [|discriminate].
   change (last (s :: v :: q) s) with (last (v :: q) s). rewrite <- Hl. apply last_default. discriminate.
 Qed.
+
+(* the last edge of a walk *)
+Lemma walk_unsnoc g u t p c : walk g u t p c ->
+  (p = [u] /\ t = u /\ c = 0) \/
+  exists a p' c' w, p = p' ++ [t] /\ walk g u a p' c' /\ In (a, t, w) g /\ c = c' + w.
+Proof.
+  induction 1 as [u|u v t p w c Hin Hw IH]; [left; auto|]. right.
+  destruct IH as [(-> & -> & ->)|(a & p' & c' & w' & -> & Hw' & Hin' & ->)].
+  - exists u, [u], 0, w. repeat split; auto; [apply walk_nil|lia].
+  - exists a, (u :: p'), (w + c'), w'. repeat split; auto; [eapply walk_cons; eauto|lia].
+Qed.
+
+Lemma walk_last_edge g u t q c : walk g u t (u :: q ++ [t]) c -> exists a w, In (a, t, w) g.
+Proof.
+  intros H. destruct (walk_unsnoc _ _ _ _ _ H) as [(Hp & _)|(a & p' & c' & w & _ & _ & Hin & _)]; [|eauto].
+  exfalso. injection Hp as Hp. destruct q; discriminate.
+Qed.
+
+Lemma NoDup_app_l {A} (a b : list A) : NoDup (a ++ b) -> NoDup a.
+Proof. induction a as [|x a IH]; intros H; [constructor|]. inversion H; subst. constructor; [rewrite in_app_iff in *; tauto|auto]. Qed.
+
+Lemma NoDup_app_r {A} (a b : list A) : NoDup (a ++ b) -> NoDup b.
+Proof. induction a as [|x a IH]; intros H; [exact H|]. inversion H; subst. auto. Qed.
+
+Lemma is_dist_unique g s t x y : is_dist g s t x -> is_dist g s t y -> x = y.
+Proof. intros [(p & Hp) Hx] [(q & Hq) Hy]. pose proof (Hx _ _ Hq). pose proof (Hy _ _ Hp). lia. Qed.
+
+Lemma is_dist_reachable g s t x : is_dist g s t x -> reachable g s t.
+Proof. intros [(p & Hp) _]. now exists p, x. Qed.
+
+(* ---- unit-weight graph of a successor function: paths are walks whose weight is the number of edges ---- *)
+Lemma in_unit_graph nodes succ u v w :
+  In (u, v, w) (unit_graph nodes succ) <-> In u nodes /\ In v (succ u) /\ w = 1.
+Proof.
+  unfold unit_graph. rewrite in_flat_map. split.
+  - intros (x & Hx & Hin). apply in_map_iff in Hin as (y & Heq & Hy). injection Heq as -> -> <-. auto.
+  - intros (Hu & Hv & ->). exists u. split; [exact Hu|]. apply in_map_iff. exists v. auto.
+Qed.
+
+Lemma unit_walk_path nodes succ s t p d : walk (unit_graph nodes succ) s t p d ->
+  is_path succ s t p /\ d = Z.of_nat (length p) - 1.
+Proof.
+  induction 1 as [u|u v t p w d Hin Hw [IHp IHd]].
+  - split; [apply is_path_single|reflexivity].
+  - apply in_unit_graph in Hin as (_ & Hv & ->). destruct (walk_hd _ _ _ _ _ Hw) as [q ->].
+    split; [now apply is_path_cons|]. subst d. cbn [length]. lia.
+Qed.
+
+Lemma path_unit_walk nodes succ : (forall u v, In v (succ u) -> In u nodes) ->
+  forall p s t, is_path succ s t p -> walk (unit_graph nodes succ) s t p (Z.of_nat (length p) - 1).
+Proof.
+  intros Hn. induction p as [|u p IH]; intros s t (Hp & Hh & Hl & Hne); [congruence|].
+  injection Hh as ->. destruct p as [|v p].
+  - simpl in Hl. subst t. apply walk_nil.
+  - destruct Hp as [Huv Hp].
+    replace (Z.of_nat (length (s :: v :: p)) - 1) with (1 + (Z.of_nat (length (v :: p)) - 1)) by (cbn [length]; lia).
+    eapply walk_cons.
+    + apply in_unit_graph. split; [eapply Hn; eauto|]. split; [exact Huv|reflexivity].
+    + apply IH. split; [exact Hp|]. split; [reflexivity|]. split; [|discriminate].
+      change (last (s :: v :: p) s) with (last (v :: p) s) in Hl. rewrite <- Hl. apply last_default. discriminate.
+Qed.
